@@ -39,6 +39,15 @@ using namespace vf;
 typedef std::complex<double> cplx;
 static const double U = 1.1102230246251565e-16; // 2^-53
 
+// calibration aid: C05_CALIB=1 prints the largest observed error / tolerance-scale ratios at exit
+struct Calib {
+    std::map<std::string, double> mx;
+    bool on = getenv("C05_CALIB") != nullptr;
+    void see(const std::string &k, double r) { if (on) { double &m = mx[k]; if (r > m) m = r; } }
+    ~Calib() { if (on) for (auto &kv : mx) fprintf(stderr, "CALIB %s %.3g\n", kv.first.c_str(), kv.second); }
+};
+static Calib calib;
+
 template <class V> struct VT;
 template <> struct VT<double> {
     typedef long double S; typedef double D; static const bool complex = false;
@@ -200,6 +209,7 @@ void gen_system(Tape &t, Case<V> &c, int want, int nmax = 40) {
     // choose the diagonal weight d so that kappa2 lands near a log-uniform target <= 95 (measured with Eigen while constructing):
     // start from a d for which the bound above holds and shrink it geometrically while the measured kappa2 stays below the target.
     double ktarget = t.logu(1.2, 95.0);
+    if (calib.on && getenv("C05_KMIN")) ktarget = std::max(ktarget, atof(getenv("C05_KMIN"))); // calibration soaks only
     typedef Eigen::Matrix<std::complex<double>, Eigen::Dynamic, Eigen::Dynamic> EMc;
     EMc N0 = EMc::Zero(n, n);
     for (int i = 0; i < n; ++i) for (auto &kv : rows[i]) N0(i, kv.first) = s1[i] * s2[kv.first] * std::complex<double>(kv.second);
@@ -306,13 +316,17 @@ bool in_domain(const Case<V> &c, Ctx &ctx) {
 
 // ---------------------------------------------------------------- running amgcl
 template <class V>
-struct Out { size_t iters = 0; double resid = 0; std::vector<V> x; };
+struct Out { size_t iters = 0; double resid = 0; std::vector<V> x; std::string threw; };
 
+// capture = true: a std::runtime_error thrown by the solver (the library's "breakdown" preconditions) is recorded in
+// Out::threw together with the state of x at that moment (the solvers update x in place); the caller decides whether the
+// breakdown is admissible (only the finite-termination prop does: when x already is the solution).  Otherwise it propagates.
 template <class SolverT, class V>
-Out<V> run_amgcl(const Case<V> &c, const typename SolverT::params &sp) {
+Out<V> run_amgcl(const Case<V> &c, const typename SolverT::params &sp, bool capture = false) {
     typedef amgcl::backend::builtin<V> B;
     auto A = to_crs<V>(c.A);
     Out<V> o; o.x = c.x0;
+    try {
     if (c.pkind == 0) {
         typedef amgcl::make_solver<amgcl::preconditioner::dummy<B>, SolverT> MS;
         typename MS::params prm; prm.solver = sp;
@@ -326,6 +340,7 @@ Out<V> run_amgcl(const Case<V> &c, const typename SolverT::params &sp) {
         auto r = S(c.b, o.x);
         o.iters = std::get<0>(r); o.resid = std::get<1>(r);
     }
+    } catch (const std::runtime_error &e) { if (!capture) throw; o.threw = e.what(); }
     return o;
 }
 
@@ -342,6 +357,7 @@ Out<typename VT<V>::S> run_amgcl_ext(const Case<V> &c, const SetP &setp) {
     Out<X> o; o.x.assign(c.x0d.begin(), c.x0d.end());
     std::vector<X> b(c.bd.begin(), c.bd.end());
     typename SolverT::params sp; setp(sp);
+    try {
     if (c.pkind == 0) {
         typedef amgcl::make_solver<amgcl::preconditioner::dummy<B>, SolverT> MS;
         typename MS::params prm; prm.solver = sp;
@@ -356,6 +372,7 @@ Out<typename VT<V>::S> run_amgcl_ext(const Case<V> &c, const SetP &setp) {
         auto r = S(b, o.x);
         o.iters = std::get<0>(r); o.resid = static_cast<double>(std::get<1>(r));
     }
+    } catch (const std::runtime_error &e) { o.threw = e.what(); }
     return o;
 }
 
@@ -383,18 +400,11 @@ struct Twin {
     const ref::Mat<D> *Mp() const { return has_m ? &M : nullptr; }
 };
 
-// calibration aid: C05_CALIB=1 prints the largest observed error / tolerance-scale ratios at exit
-struct Calib {
-    std::map<std::string, double> mx;
-    bool on = getenv("C05_CALIB") != nullptr;
-    void see(const std::string &k, double r) { if (on) { double &m = mx[k]; if (r > m) m = r; } }
-    ~Calib() { if (on) for (auto &kv : mx) fprintf(stderr, "CALIB %s %.3g\n", kv.first.c_str(), kv.second); }
-};
-static Calib calib;
 
 static const double C_X = 64.0;   // (x8 for complex arithmetic) multiplies u * kappa2(A) * kappa2(M) * (k+1) * max|x_j|
 static const double C_T = 1e4;    // multiplies the measured double-vs-long-double divergence of the reference recurrence
 static const double SENS_CUT = 1e-12; // iterates are compared while that divergence stays below SENS_CUT * max|x_j| (tolerance <= ~1e-8 relative)
+static const double BREAKDOWN_EPS = 1e-10; // reference BiCGStab divisor / (product of norms) below this: the recurrence breaks down in that step
 static const double SUBSPACE_EPS = 1e-9; // k counts as "inside the Krylov subspace" while |r_{k-1}| > SUBSPACE_EPS |r_0|
 
 // compare the amgcl iterate with the reference trace.
@@ -424,6 +434,22 @@ int compare_iterate(const Case<V> &c, const std::string &what, int k, const Out<
                << " > tol " << static_cast<double>(tol) << " (|x_k - x_0| = " << static_cast<double>(step) << ", rounding sensitivity " << static_cast<double>(sens) << ")");
     if (dist(o.x, tr.x[0]) > 0) moved = true;
     return tol < 1e-6L * step ? 1 : 2;
+}
+
+// The k-th iterate exists only while the method has not converged / broken down: once the reference recurrence has an
+// exactly zero divisor (trace shorter than k) or a numerically zero residual before step k, "the k-th iterate of the
+// algorithm" is undefined (the library then divides rounding noise by rounding noise or raises its breakdown exception,
+// e.g. "Zero omega in BiCGStab" on A = c I one step after the exact solution was reached), so the solver is not run for
+// such k.  Counted with the label below.
+template <class S, class D>
+bool iterate_exists(int k, const ref::Trace<S> &tr, const ref::Trace<D> &tw, Ctx &ctx) {
+    if (getenv("C05_TRACE") && k < static_cast<int>(tr.cond.size()) && k < static_cast<int>(tw.cond.size())) fprintf(stderr, "TRACE cond k=%d ld=%.3Lg dbl=%.3g\n", k, static_cast<long double>(tr.cond[k]), static_cast<double>(tw.cond[k]));
+    bool ok = k < static_cast<int>(tr.x.size()) && k < static_cast<int>(tw.x.size()) && tr.rn[k - 1] > SUBSPACE_EPS * tr.rn[0];
+    // BiCGStab: a divisor (r^,r), (r^,v) or (t,s) that vanishes relative to the norms of its factors is a breakdown of the
+    // recurrence itself (in exact arithmetic a division by zero; the library raises "Zero rho/omega" when it hits 0 exactly)
+    if (ok && !tr.cond.empty() && !(tr.cond[k] > BREAKDOWN_EPS && tw.cond[k] > BREAKDOWN_EPS)) ok = false;
+    if (!ok) ctx.label("stopped:reference-converged-or-broke-down");
+    return ok;
 }
 
 // bookkeeping shared by the iterate props
@@ -473,6 +499,7 @@ void prop_cg(Tape &t, Ctx &ctx) {
     long double xsA = ref::anorm(c.Ad, xs), x0A = ref::anorm(c.Ad, c.x0d);
     bool moved = false; Count cnt;
     for (int k = 1; k <= K; ++k) {
+        if (!iterate_exists(k, tr, tw, ctx)) break;
         typename Solver::params sp; zero_tol(sp, k);
         Out<V> o = run_amgcl<Solver>(c, sp);
         int cr = compare_iterate(c, "cg", k, o, tr, tw, moved);
@@ -513,6 +540,7 @@ void prop_bicgstab(Tape &t, Ctx &ctx) {
     ref::Trace<D> tw = ref::bicgstab<D>(sw, w.x0, K);
     bool moved = false; Count cnt;
     for (int k = 1; k <= K; ++k) {
+        if (!iterate_exists(k, tr, tw, ctx)) break;
         typename Solver::params sp; zero_tol(sp, k);
         sp.pside = left ? amgcl::preconditioner::side::left : amgcl::preconditioner::side::right;
         Out<V> o = run_amgcl<Solver>(c, sp);
@@ -560,6 +588,7 @@ void prop_gmres(Tape &t, Ctx &ctx) {
     bool moved = false; Count cnt; bool restarted = false;
     double prev = -1;
     for (int k = 1; k <= K; ++k) {
+        if (!iterate_exists(k, tr, tw, ctx)) break;
         Out<V> o;
         switch (variant) {
         case 0: case 1: { typedef amgcl::solver::gmres<B> Sv; typename Sv::params sp; zero_tol(sp, k); sp.M = M; sp.pside = left ? amgcl::preconditioner::side::left : amgcl::preconditioner::side::right; o = run_amgcl<Sv>(c, sp); break; }
@@ -608,6 +637,7 @@ void prop_richardson(Tape &t, Ctx &ctx) {
     ref::Trace<D> tw = ref::richardson<D>(w.A, w.Mp(), w.b, w.x0, omega, K);
     bool moved = false; Count cnt;
     for (int k = 1; k <= K; ++k) {
+        if (!iterate_exists(k, tr, tw, ctx)) break;
         typename Solver::params sp; zero_tol(sp, k); sp.damping = omega;
         Out<V> o = run_amgcl<Solver>(c, sp);
         int cr = compare_iterate(c, "richardson", k, o, tr, tw, moved);
@@ -638,10 +668,15 @@ void prop_richardson(Tape &t, Ctx &ctx) {
 // no real case (0 of 5000) needed more than the bound in either precision; complex BiCGStab needed one extra iteration
 // once in about 3000 cases (n = 10, eigenvalues on an arc of a circle, both precisions behave alike: the moment problem
 // behind a bi-orthogonal method is ill-conditioned independently of kappa2), so the complex long-double stage also gets +2.
+// CG (orthogonality kept only implicitly by the two-term recurrence) is treated the same way: in 2 x 25000 HPD cases it
+// needed one extra iteration 3 times in double (n = 20..33, kappa2 = 30..53; first seen in a thorough run) and never in
+// long double, so double gets 2 + n/8 extra iterations and the exact bound is asserted on the long-double instantiation.
+// GMRES / FGMRES / LGMRES (explicit orthogonalisation) and Richardson never needed more than the bound in double.
 template <class V>
 void prop_fterm(Tape &t, Ctx &ctx) {
     typedef amgcl::backend::builtin<V> B;
     int method = static_cast<int>(t.u(0, 7)); // cg bicgstab bicgstabl gmres fgmres lgmres idrs richardson
+    if (calib.on && getenv("C05_ONLY_METHOD")) method = atoi(getenv("C05_ONLY_METHOD")); // calibration soaks only
     const char *mn[] = {"cg", "bicgstab", "bicgstabl", "gmres", "fgmres", "lgmres", "idrs", "richardson"};
     Case<V> c;
     bool shortrec = method == 1 || method == 2 || method == 6;
@@ -667,74 +702,77 @@ void prop_fterm(Tape &t, Ctx &ctx) {
     ctx.desc << "finite-termination " << mn[method] << par.str() << " bound=" << bound << " " << describe_case(c);
     if (!in_domain(c, ctx)) return;
     ctx.label(std::string("method:") + mn[method]);
-    const int slack = method == 2 ? L : 2; // BiCGStab(L) advances L steps per sweep: its smallest possible slack is one more sweep
-    int maxit = shortrec ? bound + slack : bound;
+    // methods whose finite termination rests on (bi-)orthogonality that is only maintained implicitly by short recurrences
+    const bool sensitive = shortrec || method == 0;
+    // rounding slack in double precision (see the calibration note above): BiCGStab(L) advances L steps per sweep, so its
+    // smallest possible slack is one more sweep; CG loses orthogonality gradually with n and kappa
+    const int slack = method == 2 ? L : method == 0 ? 2 + n / 8 : 2;
+    const int maxit = sensitive ? bound + slack : bound;
+    typedef typename VT<V>::S X;
     auto prep = [&](auto &sp, int mi) { sp.maxiter = mi; sp.tol = 1e-10; sp.abstol = 0; };
-    Out<V> o;
-    switch (method) {
-    case 0: { typedef amgcl::solver::cg<B> Sv; typename Sv::params sp; prep(sp, maxit); o = run_amgcl<Sv>(c, sp); break; }
-    case 1: { typedef amgcl::solver::bicgstab<B> Sv; typename Sv::params sp; prep(sp, maxit); sp.pside = side; o = run_amgcl<Sv>(c, sp); break; }
-    case 2: { typedef amgcl::solver::bicgstabl<B> Sv; typename Sv::params sp; prep(sp, maxit); sp.L = L; sp.pside = side; sp.convex = convex; o = run_amgcl<Sv>(c, sp); break; }
-    case 3: { typedef amgcl::solver::gmres<B> Sv; typename Sv::params sp; prep(sp, maxit); sp.M = std::max(n, 1); sp.pside = side; o = run_amgcl<Sv>(c, sp); break; }
-    case 4: { typedef amgcl::solver::fgmres<B> Sv; typename Sv::params sp; prep(sp, maxit); sp.M = std::max(n, 1); o = run_amgcl<Sv>(c, sp); break; }
-    case 5: { typedef amgcl::solver::lgmres<B> Sv; typename Sv::params sp; prep(sp, maxit); sp.M = std::max(n, 1); sp.K = Kaug; sp.pside = side; o = run_amgcl<Sv>(c, sp); break; }
-    case 6: { typedef amgcl::solver::idrs<B> Sv; typename Sv::params sp; prep(sp, maxit); sp.s = s; sp.smoothing = smoothing; sp.replacement = replacement; sp.omega = om0 ? 0.0 : 0.7; o = run_amgcl<Sv>(c, sp); break; }
-    default: { typedef amgcl::solver::richardson<B> Sv; typename Sv::params sp; prep(sp, maxit); sp.damping = 1.0; o = run_amgcl<Sv>(c, sp); break; }
-    }
-    long double rr = true_relres(c.A, c.b, o.x);
+    auto run_d = [&](int mi) -> Out<V> {
+        switch (method) {
+        case 0: { typedef amgcl::solver::cg<B> Sv; typename Sv::params sp; prep(sp, mi); return run_amgcl<Sv>(c, sp, true); }
+        case 1: { typedef amgcl::solver::bicgstab<B> Sv; typename Sv::params sp; prep(sp, mi); sp.pside = side; return run_amgcl<Sv>(c, sp, true); }
+        case 2: { typedef amgcl::solver::bicgstabl<B> Sv; typename Sv::params sp; prep(sp, mi); sp.L = L; sp.pside = side; sp.convex = convex; return run_amgcl<Sv>(c, sp, true); }
+        case 3: { typedef amgcl::solver::gmres<B> Sv; typename Sv::params sp; prep(sp, mi); sp.M = std::max(n, 1); sp.pside = side; return run_amgcl<Sv>(c, sp, true); }
+        case 4: { typedef amgcl::solver::fgmres<B> Sv; typename Sv::params sp; prep(sp, mi); sp.M = std::max(n, 1); return run_amgcl<Sv>(c, sp, true); }
+        case 5: { typedef amgcl::solver::lgmres<B> Sv; typename Sv::params sp; prep(sp, mi); sp.M = std::max(n, 1); sp.K = Kaug; sp.pside = side; return run_amgcl<Sv>(c, sp, true); }
+        case 6: { typedef amgcl::solver::idrs<B> Sv; typename Sv::params sp; prep(sp, mi); sp.s = s; sp.smoothing = smoothing; sp.replacement = replacement; sp.omega = om0 ? 0.0 : 0.7; return run_amgcl<Sv>(c, sp, true); }
+        default: { typedef amgcl::solver::richardson<B> Sv; typename Sv::params sp; prep(sp, mi); sp.damping = 1.0; return run_amgcl<Sv>(c, sp, true); }
+        }
+    };
+    auto run_x = [&](int mi) -> Out<X> { // the library's templates in long double (sensitive methods only)
+        switch (method) {
+        case 0: return run_amgcl_ext<amgcl::solver::cg>(c, [&](auto &sp) { prep(sp, mi); });
+        case 1: return run_amgcl_ext<amgcl::solver::bicgstab>(c, [&](auto &sp) { prep(sp, mi); sp.pside = side; });
+        case 2: return run_amgcl_ext<amgcl::solver::bicgstabl>(c, [&](auto &sp) { prep(sp, mi); sp.L = L; sp.pside = side; sp.convex = convex; });
+        default: return run_amgcl_ext<amgcl::solver::idrs>(c, [&](auto &sp) { prep(sp, mi); sp.s = s; sp.smoothing = smoothing; sp.replacement = replacement; sp.omega = om0 ? 0.0 : 0.7; });
+        }
+    };
+    const std::vector<X> bx(c.bd.begin(), c.bd.end());
     long double r0 = true_relres(c.A, c.b, c.x0);
+    const bool need_mode = calib.on && getenv("C05_NEED");
+    if (need_mode) { // calibration: smallest j such that maxiter = bound + j reaches a true residual <= 1e-8 (long double templates / double)
+        if (!sensitive) return;
+        int need = -1, needd = -1;
+        for (int j = 0; j <= 40 && need < 0; ++j) if (true_relres(c.A, bx, run_x(bound + j).x) <= 1e-8L) need = j;
+        for (int j = 0; j <= 40 && needd < 0; ++j) if (true_relres(c.A, c.b, run_d(bound + j).x) <= 1e-8L) needd = j;
+        fprintf(stderr, "NEED %s ext=%d dbl=%d n=%d L=%d s=%d kappa=%.1f %s %s\n", mn[method], need, needd, n, L, s, c.kappaA, c.fam.c_str(), Case<V>::pname(c.pkind));
+        return;
+    }
+    Out<V> o = run_d(maxit);
+    long double rr = true_relres(c.A, c.b, o.x);
     ctx.nontrivial = n >= 2 && o.iters >= 2 && r0 > 1e-6;
     if (shortrec) ctx.label(std::string("shortrec-family:") + (c.hpd ? "hpd" : "posreal"));
     ctx.label(o.iters >= 2 ? "iters>=2" : "iters<2");
     ctx.label(static_cast<int>(o.iters) >= n ? "used-all-n" : "early");
-    if (calib.on) {
-        std::string kb = c.kappaA <= 10 ? "k<=10" : c.kappaA <= 30 ? "k<=30" : "k<=100";
-        kb += n <= 4 ? " n<=04" : n <= 8 ? " n<=08" : n <= 12 ? " n<=12" : n <= 20 ? " n<=20" : n <= 30 ? " n<=30" : " n<=40";
-        calib.see(std::string("fterm-") + mn[method] + " " + kb + " " + Case<V>::pname(c.pkind) + ":iters-bound+100", 100 + static_cast<double>(o.iters) - bound); // (iterations until the solver's own 1e-10 test fires)
-        calib.see(std::string("fterm-") + mn[method] + ":relres", static_cast<double>(rr));
+    if (calib.on) calib.see(std::string("fterm-") + mn[method] + ":relres", static_cast<double>(rr));
+    // A breakdown exception ("zero rho / omega / sigma / M[k,k]") is admissible exactly when the iterate at the moment of the
+    // breakdown already is the solution (the method has nothing left to do: e.g. IDR(s) with the exact preconditioner reaches
+    // r = 0 in one step while its smoothed residual is still above the requested 1e-10); otherwise it is a failure to terminate.
+    if (!o.threw.empty()) {
+        ctx.label(std::string("breakdown-after-convergence:") + mn[method]);
+        ctx.nontrivial = false;
+        VF_REQUIRE(rr <= 1e-8L, mn[method] << par.str() << ": the solver threw \"" << o.threw << "\" with true relative residual " << static_cast<double>(rr) << " (initial " << static_cast<double>(r0) << "): breakdown before the solution was reached");
+    } else {
+        VF_REQUIRE(static_cast<int>(o.iters) <= maxit + (method == 2 ? L - 1 : 0), mn[method] << ": " << o.iters << " iterations reported with maxiter=" << maxit);
+        VF_REQUIRE(rr <= 1e-8L, mn[method] << par.str() << ": true relative residual " << static_cast<double>(rr) << " after " << o.iters << " iterations (allowed " << maxit
+                   << ", bound " << bound << " for n=" << n << "), initial " << static_cast<double>(r0) << ", reported " << o.resid);
     }
-    const bool need_mode = calib.on && getenv("C05_NEED");
-    if (need_mode && !shortrec) return;
-    if (!need_mode) VF_REQUIRE(static_cast<int>(o.iters) <= maxit, mn[method] << ": " << o.iters << " iterations reported with maxiter=" << maxit);
-    if (!need_mode) VF_REQUIRE(rr <= 1e-8L, mn[method] << par.str() << ": true relative residual " << static_cast<double>(rr) << " after " << o.iters << " iterations (allowed " << maxit
-               << ", bound " << bound << " for n=" << n << "), initial " << static_cast<double>(r0) << ", reported " << o.resid);
-    if (!shortrec) return;
+    if (!sensitive) return;
     if (static_cast<int>(o.iters) > bound) ctx.label(std::string("double-needs-more-than-bound:") + mn[method]);
     // the library's recurrences in extended precision: the bound itself
-    typedef typename VT<V>::S X;
-    Out<X> ox;
-    const int xbound = bound + (VT<V>::complex ? slack : 0);
-    switch (method) {
-    case 1: ox = run_amgcl_ext<amgcl::solver::bicgstab>(c, [&](auto &sp) { prep(sp, xbound); sp.pside = side; }); break;
-    case 2: ox = run_amgcl_ext<amgcl::solver::bicgstabl>(c, [&](auto &sp) { prep(sp, xbound); sp.L = L; sp.pside = side; sp.convex = convex; }); break;
-    default: ox = run_amgcl_ext<amgcl::solver::idrs>(c, [&](auto &sp) { prep(sp, xbound); sp.s = s; sp.smoothing = smoothing; sp.replacement = replacement; sp.omega = om0 ? 0.0 : 0.7; }); break;
-    }
-    long double rx = true_relres(c.A, std::vector<X>(c.bd.begin(), c.bd.end()), ox.x);
+    const int xbound = bound + (VT<V>::complex ? (method == 2 ? L : 2) : 0);
+    Out<X> ox = run_x(xbound);
+    long double rx = true_relres(c.A, bx, ox.x);
     if (calib.on) calib.see(std::string("fterm-ext-") + mn[method] + ":relres", static_cast<double>(rx));
-    if (need_mode) { // calibration: smallest j such that maxiter = bound + j reaches 1e-8 (long double templates / double)
-        int need = -1, needd = -1;
-        for (int j = 0; j <= 40 && need < 0; ++j) {
-            Out<X> oj;
-            switch (method) {
-            case 1: oj = run_amgcl_ext<amgcl::solver::bicgstab>(c, [&](auto &sp) { prep(sp, bound + j); sp.pside = side; }); break;
-            case 2: oj = run_amgcl_ext<amgcl::solver::bicgstabl>(c, [&](auto &sp) { prep(sp, bound + j); sp.L = L; sp.pside = side; sp.convex = convex; }); break;
-            default: oj = run_amgcl_ext<amgcl::solver::idrs>(c, [&](auto &sp) { prep(sp, bound + j); sp.s = s; sp.smoothing = smoothing; sp.replacement = replacement; sp.omega = om0 ? 0.0 : 0.7; }); break;
-            }
-            if (true_relres(c.A, std::vector<X>(c.bd.begin(), c.bd.end()), oj.x) <= 1e-8L) need = j;
-        }
-        for (int j = 0; j <= 40 && needd < 0; ++j) {
-            Out<V> oj;
-            switch (method) {
-            case 1: { typedef amgcl::solver::bicgstab<B> Sv; typename Sv::params sp; prep(sp, bound + j); sp.pside = side; oj = run_amgcl<Sv>(c, sp); break; }
-            case 2: { typedef amgcl::solver::bicgstabl<B> Sv; typename Sv::params sp; prep(sp, bound + j); sp.L = L; sp.pside = side; sp.convex = convex; oj = run_amgcl<Sv>(c, sp); break; }
-            default: { typedef amgcl::solver::idrs<B> Sv; typename Sv::params sp; prep(sp, bound + j); sp.s = s; sp.smoothing = smoothing; sp.replacement = replacement; sp.omega = om0 ? 0.0 : 0.7; oj = run_amgcl<Sv>(c, sp); break; }
-            }
-            if (true_relres(c.A, c.b, oj.x) <= 1e-8L) needd = j;
-        }
-        fprintf(stderr, "NEED %s ext=%d dbl=%d n=%d L=%d s=%d kappa=%.1f %s %s\n", mn[method], need, needd, n, L, s, c.kappaA, c.fam.c_str(), Case<V>::pname(c.pkind));
+    if (!ox.threw.empty()) {
+        ctx.label(std::string("breakdown-after-convergence(long double):") + mn[method]);
+        VF_REQUIRE(rx <= 1e-8L, mn[method] << par.str() << " (library templates in long double): the solver threw \"" << ox.threw << "\" with true relative residual " << static_cast<double>(rx));
         return;
     }
-    VF_REQUIRE(static_cast<int>(ox.iters) <= xbound, mn[method] << " (long double): " << ox.iters << " iterations reported with maxiter=" << xbound);
+    VF_REQUIRE(static_cast<int>(ox.iters) <= xbound + (method == 2 ? L - 1 : 0), mn[method] << " (long double): " << ox.iters << " iterations reported with maxiter=" << xbound);
     VF_REQUIRE(rx <= 1e-8L, mn[method] << par.str() << " (library templates in long double): true relative residual " << static_cast<double>(rx) << " after " << ox.iters
                << " iterations (allowed " << xbound << ", bound " << bound << " for n=" << n << "), initial " << static_cast<double>(r0) << ", reported " << ox.resid);
 }
